@@ -192,6 +192,23 @@ pub fn scale_model(c: &ScaleCase) -> ModelCase {
             texts.push(format!("{long}{long}"));
             texts.push(long.chars().take(l - 1).collect());
         }
+        7 => {
+            // 70,000 type n-grams of seven types (more than 65,536 patterns in the type automaton,
+            // type window 4: the scorer that is not served by the cache)
+            spec.char_window = 1;
+            spec.type_window = 4;
+            let types_of = |k: usize| -> Vec<u8> { (0..7).rev().map(|d| ((k / 6usize.pow(d)) % 6) as u8 + 1).collect() };
+            for k in 0..70_000usize {
+                spec.type_ngrams.push(NgramSpec { ngram: types_of(k), weights: vec![(k % 7) as i32 - 3, (k % 5) as i32 - 2] });
+            }
+            let ch = |t: u8| ['1', 'a', 'あ', 'ア', '火', '。'][t as usize - 1];
+            for k in [0usize, 12_345, 65_535, 65_536, 69_999] {
+                let mut t: String = types_of(k).into_iter().map(ch).collect();
+                t.push_str("火a1");
+                texts.push(t);
+            }
+            texts.push("11a11a1aあア火。1a1a11".into());
+        }
         _ => {
             // window 255 with 12-character n-grams and a text longer than the window
             spec.char_window = 255;
@@ -213,9 +230,9 @@ pub fn run(rep: &mut Report) {
         "deterministic cases at a scale the random generator does not reach: a 70,000-character \
 text with overlapping/suffix patterns, 70,000 n-grams, a 5,000-character dictionary word with a \
 suffix word, window 255 with 12-character n-grams on a 750-character text, n-grams of 255 .. 510 \
-characters and types under windows of 128 .. 255; same oracle",
+characters and types under windows of 128 .. 255, 70,000 type n-grams under type window 4; same oracle",
         false,
-        [0u8, 1, 2, 3, 4, 5, 6].into_iter().map(|kind| ScaleCase { kind }),
+        [0u8, 1, 2, 3, 4, 5, 6, 7].into_iter().map(|kind| ScaleCase { kind }),
         |c: &ScaleCase| test_case(&scale_model(c)).map(|mut i| { i.nontrivial = true; i }),
     );
     let n = rep.n(15000, 750000);
